@@ -3,12 +3,71 @@ package astisub
 import (
 	"bytes"
 	"io"
+	"os"
 	"time"
 )
 
 // provider for (*os.File).Read in the engine: an empty file
 func vstubFileRead(p []byte) (int, error)  { return 0, io.EOF }
 func vstubFileWrite(p []byte) (int, error) { return len(p), nil }
+
+// A small file system for the engine (harnesses that set vfs): os.Open / os.Create / Read / Write by file name.
+type vfile struct {
+	data []byte
+	pos  int
+}
+
+var vfs map[string]*vfile
+
+func vstubFileReadNamed(name string, p []byte) (int, error) {
+	f := vfs[name]
+	if f == nil {
+		return vstubFileRead(p)
+	}
+	n := copy(p, f.data[f.pos:])
+	f.pos += n
+	if n == 0 && len(p) > 0 {
+		return 0, io.EOF
+	}
+	return n, nil
+}
+func vstubFileWriteNamed(name string, p []byte) (int, error) {
+	f := vfs[name]
+	if f == nil {
+		return vstubFileWrite(p)
+	}
+	f.data = append(f.data, p...)
+	return len(p), nil
+}
+
+// vfsPut makes a file of that name with that content and returns its path (engine: in vfs; native run: on disk).
+func vfsPut(name string, data []byte) string {
+	path := vtmpdir() + "/" + name
+	if vnative() {
+		if err := os.WriteFile(path, data, 0o644); err != nil {
+			panic(err)
+		}
+		return path
+	}
+	if vfs == nil {
+		vfs = map[string]*vfile{}
+	}
+	vfs[path] = &vfile{data: data}
+	return path
+}
+
+// vfsGet returns the content of a file written by the code under test.
+func vfsGet(path string) ([]byte, bool) {
+	if vnative() {
+		b, err := os.ReadFile(path)
+		return b, err == nil
+	}
+	f := vfs[path]
+	if f == nil {
+		return nil, false
+	}
+	return f.data, true
+}
 
 // C07 H1: the codec is chosen by the lower-cased file extension alone; unsupported extensions give the
 // invalid-extension error; an empty list gives the nothing-to-write error from every writer.
@@ -349,7 +408,7 @@ func VH_C07_Pipeline() {
 		return
 	}
 	for i, it := range s.Items {
-		vassert(int64(it.StartAt) == ref[i].st && int64(it.EndAt) == ref[i].en, "C07 pipeline: boundaries and order the composed specifications give")
+		vassert(vand(int64(it.StartAt) == ref[i].st, int64(it.EndAt) == ref[i].en), "C07 pipeline: boundaries and order the composed specifications give")
 		vassert(vtrimSpaces(vtextOf(it)) == ref[i].text, "C07 pipeline: text the composed specifications give")
 	}
 	vreach("ops")
@@ -406,6 +465,175 @@ func VH_C07_Pipeline() {
 		if dst != 3 || (s.Metadata != nil && s.Metadata.STLDisplayStandardCode == "0") {
 			vassert(vtrimSpaces(vtextOf(it)) == ref[i].text, "C07 pipeline: same text after conversion")
 		}
+	}
+	vreach("end")
+}
+
+// C07 H4: the command-line tool (package main in /repo/astisub, executed from SSA with flag registration/parsing
+// replaced by flag cells and log.Fatal by an exit; natively: the built binary in a child process). Every sub-command
+// on files of every text format and on a transport stream: the written destination, read back, holds what the
+// operation's specification gives for the source; missing or invalid arguments end in an error exit and an unknown
+// sub-command too.
+func VH_C07_CLI() {
+	vmode("int")
+	sec := int64(time.Second)
+	vfs = map[string]*vfile{}
+	src := choose(5)
+	var in0 string
+	switch src {
+	case 0:
+		in0 = vfsPut("in0.SRT", []byte("1\n00:00:03,000 --> 00:00:13,000\nHello\n\n2\n00:01:00,000 --> 00:01:10,000\nWorld\n"))
+	case 1:
+		in0 = vfsPut("in0.vtt", []byte("WEBVTT\n\n00:00:03.000 --> 00:00:13.000\nHello\n\n00:01:00.000 --> 00:01:10.000\nWorld\n"))
+	case 2:
+		in0 = vfsPut("in0.ass", []byte("[Script Info]\nTitle: t\n\n[V4+ Styles]\nFormat: Name, Fontname\nStyle: Default,Arial\n\n[Events]\nFormat: Layer, Start, End, Style, Text\nDialogue: 0,0:00:03.00,0:00:13.00,Default,Hello\nDialogue: 0,0:01:00.00,0:01:10.00,Default,World\n"))
+	case 3:
+		w := NewSubtitles()
+		w.Metadata = &Metadata{Framerate: 25, STLDisplayStandardCode: "0"}
+		w.Items = append(w.Items, &Item{StartAt: 3 * time.Second, EndAt: 13 * time.Second, Lines: []Line{{Items: []LineItem{{Text: "Hello"}}}}})
+		w.Items = append(w.Items, &Item{StartAt: 60 * time.Second, EndAt: 70 * time.Second, Lines: []Line{{Items: []LineItem{{Text: "World"}}}}})
+		var b bytes.Buffer
+		if err := w.WriteToSTL(&b); err != nil {
+			vassert(false, "C07 cli: source fixture")
+			return
+		}
+		in0 = vfsPut("in0.stl", b.Bytes())
+	default:
+		// a transport stream carrying page 888 (the page asked for with -p) after another subtitle page of the same magazine
+		vtsData, vtsPos = nil, 0
+		p := func(s int64) int64 { return s * 90000 }
+		vtsData = append(vtsData, vpmtData(100)) // the command has no PID option: the stream's PMT announces the teletext PID
+		vtsData = append(vtsData, vpesData(100, p(100), vpes(vheader(0, 8, 8, true, true, 0))))
+		vtsData = append(vtsData, vpesData(100, p(103), vpes(vheader(0, 8, 8, true, true, 0), vrow(0, 20, "Hello"))))
+		vtsData = append(vtsData, vpesData(100, p(113), vpes(vheader(0, 8, 8, true, true, 0))))
+		vtsData = append(vtsData, vpesData(100, p(160), vpes(vheader(0, 8, 8, true, true, 0), vrow(0, 20, "World"))))
+		vtsData = append(vtsData, vpesData(100, p(170), vpes(vheader(0, 8, 8, true, true, 0))))
+		in0 = vfsPut("in0.ts", vtsBytes())
+	}
+	ref := []vc07Cue{{3 * sec, 13 * sec, "Hello"}, {60 * sec, 70 * sec, "World"}}
+	page := 0
+	if src == 4 {
+		page = 888
+	}
+	dst := choose(4)
+	out := vtmpdir() + "/out." + []string{"srt", "VTT", "ssa", "stl"}[dst]
+	inputs := []string{in0}
+	durs := []int64{0, 0, 0, 0, 0, 0} // -a1 -a2 -d1 -d2 -f -s
+	cmd := []string{"convert", "sync", "fragment", "unfragment", "merge", "optimize", "apply-linear-correction", "bogus", "convert", "convert"}[choose(10)]
+	wantFatal := false
+	variant := 0
+	switch cmd {
+	case "sync":
+		// representative shifts (the shift arithmetic over all values: C09 and VH_C07_Pipeline): clamping the first cue,
+		// removing it, none, forwards
+		// every whole-second shift in [-13s,5s]: clamping the first cue, removing it, none, forwards (shifts at 1 ns: C09)
+		d := nondetInt64(-13, 5) * sec
+		if dst >= 2 {
+			d = []int64{-5, -13, 0, 2}[choose(4)] * sec // SSA/STL destinations: representative shifts (their timestamp arithmetic: C04, C05, C16)
+		}
+		durs[5] = d
+		if d == 0 {
+			wantFatal = true
+		}
+		ref = vc07RefAdd(ref, d)
+	case "fragment":
+		f := []int64{-1, 0, 30, 45, 65}[choose(5)] * sec
+		durs[4] = f
+		if f <= 0 {
+			wantFatal = true
+		} else {
+			ref = vc07RefFragment(ref, f, 2)
+		}
+	case "unfragment":
+		ref = vc07RefUnfragment(ref)
+	case "merge":
+		variant = choose(2)
+		if variant == 1 {
+			wantFatal = true // a single input
+		} else {
+			st := []int64{1, 3, 60, 80}[choose(4)] * sec // before, tie with the first cue, tie with the second, after
+			in1 := vfsPut("in1.srt", []byte("1\n"+vrenderTime(st/1000000, ",", 3)+" --> "+vrenderTime(st/1000000+2000, ",", 3)+"\nHello\n"))
+			inputs = append(inputs, in1)
+			ref = vc07RefOrder(append(ref, vc07Cue{st, st + 2*sec, "Hello"}))
+		}
+	case "apply-linear-correction":
+		variant = choose(5)
+		durs[0], durs[1], durs[2], durs[3] = 10*sec, 20*sec, 23*sec, 43*sec // t -> 2t + 3s
+		if variant > 0 {
+			durs[variant-1] = 0 // each of the four durations is required
+			wantFatal = true
+		} else {
+			for i := range ref {
+				ref[i].st, ref[i].en = 2*ref[i].st+3*sec, 2*ref[i].en+3*sec
+			}
+		}
+	case "bogus":
+		wantFatal = true
+	}
+	switch cmd {
+	case "convert":
+		// the second and third "convert" entries: no output path / no input path
+	}
+	vreach("args")
+	fatal := vcliRun(cmd, inputs, out, page, durs)
+	vassert(fatal == wantFatal, "C07 cli: error exit exactly for missing or invalid arguments")
+	if fatal || wantFatal {
+		vreach("fatal")
+		return
+	}
+	data, ok := vfsGet(out)
+	vassert(ok, "C07 cli: the destination file is written")
+	if !ok {
+		return
+	}
+	if len(ref) == 0 {
+		return
+	}
+	var r *Subtitles
+	var rerr error
+	switch dst {
+	case 0:
+		r, rerr = ReadFromSRT(bytes.NewReader(data))
+	case 1:
+		r, rerr = ReadFromWebVTT(bytes.NewReader(data))
+	case 2:
+		r, rerr = ReadFromSSA(bytes.NewReader(data))
+	case 3:
+		r, rerr = ReadFromSTL(bytes.NewReader(data), STLOptions{})
+	}
+	vassert(rerr == nil, "C07 cli: the destination reads back")
+	if rerr != nil {
+		return
+	}
+	vassert(len(r.Items) == len(ref), "C07 cli: the cue count the sub-command's specification gives")
+	if len(r.Items) != len(ref) {
+		return
+	}
+	for i, it := range r.Items {
+		vassert(int64(it.StartAt) == ref[i].st, "C07 cli: starts and order the sub-command's specification gives")
+		vassert(int64(it.EndAt) == ref[i].en, "C07 cli: ends the sub-command's specification gives")
+		if dst != 3 || src == 3 {
+			vassert(vtrimSpaces(vtextOf(it)) == ref[i].text, "C07 cli: text")
+		}
+	}
+	vreach("end")
+}
+
+// missing -i / -o
+func VH_C07_CLIArgs() {
+	vfs = map[string]*vfile{}
+	in0 := vfsPut("in0.srt", []byte("1\n00:00:03,000 --> 00:00:13,000\nHello\n"))
+	out := vtmpdir() + "/out.srt"
+	durs := []int64{0, 0, 0, 0, 0, 0}
+	switch choose(4) {
+	case 0:
+		vassert(vcliRun("convert", nil, out, 0, durs), "C07 cli: no input path is an error exit")
+	case 1:
+		vassert(vcliRun("convert", []string{in0}, "", 0, durs), "C07 cli: no output path is an error exit")
+	case 2:
+		vassert(vcliRun("convert", []string{vtmpdir() + "/missing.srt"}, out, 0, durs), "C07 cli: an unreadable input is an error exit")
+	default:
+		vassert(vcliRun("convert", []string{in0}, vtmpdir()+"/out.xyz", 0, durs), "C07 cli: an unsupported destination extension is an error exit")
 	}
 	vreach("end")
 }
